@@ -32,7 +32,7 @@ RULE = (
     "BlockDiag, BlockInterleaved, BatchRepeat, Cat} and the generic ones {Dense, Minimal, Toeplitz, Root, Sum, PsdSum, Mul, "
     "ConstantMul, SumBatch, Masked, AddedDiag}, nesting <= 3, n <= 6, batch kinds, f32/f64, one float leaf requires grad; "
     "plus Triangular heads with positive diagonal (logdet / inv_quad_logdet only) and a Zero.logdet side cell) x "
-    "rhs in {None, vector, 1-3 columns with the operator's batch; broadcasting batches for inv_quad only} x reduce_inv_quad x "
+    "rhs in {None, vector, 1-3 columns with the operator's batch} x reduce_inv_quad x "
     "logdet flag x entry point {op.logdet, torch.logdet, op.inv_quad, op.inv_quad_logdet, linear_operator.inv_quad, "
     "linear_operator.inv_quad_logdet} x settings cell {max_cholesky_size 0/default, fast log_prob, num_trace_samples 1/4/10, "
     "max_lanczos_quadrature_iterations n/n+2, skip_logdet_forward, min_preconditioning_size / max_preconditioner_size, "
@@ -173,8 +173,8 @@ def _rhs_kinds(shape, entry):
     kinds = ["matrix", "matrix", "matrix1"]
     if not batch:
         kinds.append("vector")
-    if entry in ("inv_quad", "fn.inv_quad") and batch:
-        kinds.append("bcast")
+    # (a right-hand side whose batch merely broadcasts against the operator's is accepted by inv_quad, but then the verdict is
+    #  that of the class's solve under broadcasting - C04; a sweep hit KroneckerProductTriangular.solve there)
     return kinds
 
 
@@ -463,12 +463,24 @@ def _kappa_struct(r, kappa):
 
 
 def _slq_expected(r, A, op, nodes, info):
-    """Expected stochastic log-determinant of the operator `op` built from recipe r (A = its float64 dense reference),
-    following the delegation of the block / repeat wrappers to their base operator."""
+    """Expected stochastic log-determinant of the operator `op` built from recipe r (A = its float64 dense reference, in the
+    batch order of `op`), following the delegation of the block / repeat wrappers to their base operator.  The reference of
+    the base is cut out of A itself (diagonal blocks / interleaved sub-grids / the first copy of a repeat), so that batch
+    permutations applied by an enclosing wrapper (block_dim != -3) are followed."""
     kind = r["op"]
-    if kind in ("BlockDiag", "BlockInterleaved") and hasattr(op, "base_linear_op"):
+    if kind in ("BlockDiag", "BlockInterleaved") and hasattr(op, "base_linear_op") and not gen.is_diag_instance(r):
         sub = r["base"]
-        A_sub = refmodel.move_block_dim(refmodel.dense(sub), r.get("block_dim", -3))
+        sshape = refmodel.shape(sub)
+        nd = len(sshape)
+        bd = r.get("block_dim", -3)
+        k = sshape[bd if bd < 0 else bd - nd]
+        n = A.shape[-1]
+        p_ = n // k
+        if kind == "BlockDiag":
+            blocks = [A[..., j * p_ : (j + 1) * p_, j * p_ : (j + 1) * p_] for j in range(k)]
+        else:
+            blocks = [A[..., j::k, j::k] for j in range(k)]
+        A_sub = torch.stack(blocks, dim=-3)
         e = _slq_expected(sub, A_sub, op.base_linear_op, nodes, info)
         if e is None:
             return None
@@ -476,10 +488,10 @@ def _slq_expected(r, A, op, nodes, info):
         return e.sum(-1)
     if kind == "BatchRepeat" and hasattr(op, "base_linear_op"):
         sub = r["base"]
-        A_sub = refmodel.dense(sub)
         rep = list(r["repeat"])
-        while A_sub.dim() < len(rep) + 2:
-            A_sub = A_sub.unsqueeze(0)
+        bb = list(refmodel.shape(sub)[:-2])
+        bb = [1] * (len(rep) - len(bb)) + bb
+        A_sub = A[tuple(slice(0, s_) for s_ in bb)]
         e = _slq_expected(sub, A_sub, op.base_linear_op, nodes, info)
         if e is None:
             return None
@@ -886,7 +898,13 @@ def _t_cg_budget(case):
     return _iterative(case) and _wants_logdet(case) and cell.get("max_cg_iterations") == n and cell.get("max_lanczos_quadrature_iterations") == n and not cell.get("skip_logdet_forward")
 
 
+def _t_batchrepeat_nested(case):
+    r = case["recipe"]
+    return any(x["op"] == "BatchRepeat" for c in R.children(r) for x in R.walk(c))
+
+
 TRIGGERS = {
+    "batch_repeat_nested_below_head": _t_batchrepeat_nested,
     "cg_budget_equals_lanczos_budget_equals_n": _t_cg_budget,
     "zero_logdet": lambda case: case["recipe"]["op"] == "Zero",
     "unrequested_term_on_iterative_path": _t_placeholder,
